@@ -471,6 +471,10 @@ class CorrData(AsciiSerializable, SampledData, Broadcastable):
 
             path_prefix = Path(path_prefix)
 
+            # data and samples are read back together, never leave new data next
+            # to the samples of an earlier result if writing gets interrupted
+            path_prefix.with_suffix(".smp").unlink(missing_ok=True)
+
             write_data(
                 path_prefix.with_suffix(".dat"),
                 self._description_data,
